@@ -63,10 +63,10 @@ def extract(n, roots, defs=None, local_atoms=None, depth=0, bool_atoms=None, ato
         return ("const", n["v"])
     if k == "unary" and n["op"] == "!":
         return ("not", rec(n["e"]))
-    if k == "binary" and n["op"] in ("&&", "||"):
+    if k == "binary" and (n["op"] in ("&&", "||") or (n["op"] in ("&", "|") and (n.get("ty") or "") == "bool")):
         a = rec(n["l"])
         b = rec(n["r"])
-        return ("and" if n["op"] == "&&" else "or", a, b)
+        return ("and" if n["op"] in ("&&", "&") else "or", a, b)
     if k == "binary" and n["op"] in ("==", "!=", ">", ">=", "<", "<="):
         l, r = peel(n["l"]), peel(n["r"])
         op = n["op"]
